@@ -81,7 +81,7 @@ class Case final : public sim::CaseBase {
     } else if (kind == kCondVar) {
       for (int f = 0; f < fibers; ++f) {
         CvWaiter w;
-        w.form = static_cast<int>(g.Draw(4));
+        w.form = static_cast<int>(g.Draw(6));
         w.timeout = kTimeouts[1 + g.Draw(4)];
         w.start_delay = kHolds[g.Draw(5)];
         waiters.push_back(w);
@@ -119,7 +119,8 @@ class Case final : public sim::CaseBase {
       }
       j.EndArr();
     } else if (kind == kCondVar) {
-      static const char* forms[] = {"while(!flag) wait(lock)", "wait(lock, pred)", "while(!flag) wait_for(lock, d)", "while(!wait_for(lock, d, pred))"};
+      static const char* forms[] = {"while(!flag) wait(lock)", "wait(lock, pred)", "while(!flag) wait_for(lock, d)", "while(!wait_for(lock, d, pred))",
+                                     "while(!flag) wait_until(lock, now+d)", "while(!wait_until(lock, now+d, pred))"};
       j.Key("waiters").Arr();
       for (auto& w : waiters) {
         j.Obj().KV("form", forms[w.form]).KV("timeout_ns", w.timeout).KV("starts_after_ns", w.start_delay).End();
@@ -311,6 +312,34 @@ class Case final : public sim::CaseBase {
                   sim::Fail("TIMEOUT_BEFORE_DEADLINE", "condition_variable::wait_for reported timeout at %llu, deadline %llu", (unsigned long long)sim::NowNs(),
                             (unsigned long long)(t0 + w.timeout));
                 }
+              }
+            }
+            break;
+          case 4:
+            while (!flag) {
+              const std::uint64_t t0 = sim::NowNs();
+              const auto st = cv.wait_until(lock, yaclib_std::chrono::steady_clock::now() + nanoseconds{w.timeout});
+              if (st == std::cv_status::timeout) {
+                ++w.timeouts_seen;
+                if (sim::NowNs() < t0 + w.timeout) {
+                  sim::Fail("TIMEOUT_BEFORE_DEADLINE", "condition_variable::wait_until reported timeout at %llu, deadline %llu", (unsigned long long)sim::NowNs(),
+                            (unsigned long long)(t0 + w.timeout));
+                }
+              }
+            }
+            break;
+          case 5:
+            for (;;) {
+              const std::uint64_t t0 = sim::NowNs();
+              if (cv.wait_until(lock, yaclib_std::chrono::steady_clock::now() + nanoseconds{w.timeout}, [&] {
+                    return flag;
+                  })) {
+                break;
+              }
+              ++w.timeouts_seen;
+              if (sim::NowNs() < t0 + w.timeout) {
+                sim::Fail("TIMEOUT_BEFORE_DEADLINE", "condition_variable::wait_until(pred) returned false at %llu, deadline %llu", (unsigned long long)sim::NowNs(),
+                          (unsigned long long)(t0 + w.timeout));
               }
             }
             break;
